@@ -24,6 +24,7 @@ pub static C07: CheckSpec = CheckSpec {
     rule: "one run = one generated history (8..170 operations: insert_or_update / update_node_status / update_node / remove / entry API / iter / lookups / clock advance) on a real KBucketsTable whose key pool sits in 1-4 hot buckets (low, middle and high indices) with a per-run incoming limit 0..16 and pending timeout in {0,1ms,40ms,1s,60s,never}; every run is non-trivial (invariants are evaluated after every operation); distinct = distinct hash of the abstract operation/result log",
     components_real: REAL_TABLE,
     components_stub: STUB_CLOCK,
+    enumerated: None,
     assumptions: &["node ids are built with NodeId::new from chosen bytes (no hashing), so all 256 buckets are reachable", "the Entry API's value_mut (documented to bypass filters) is not exercised"],
 };
 
@@ -38,6 +39,7 @@ pub static C08: CheckSpec = CheckSpec {
     rule: "same histories as C07; at lookup steps and at the end of each run closest_keys / closest_values / closest_values_predicate (3 targets: local id, stored ids, ids at a chosen log2 distance 0..256 with the low bits set, random) are compared with the sorted post-iteration full scan, and nodes_by_distances (distinct distances incl. 0, >256, u64::MAX; cap 1..20) with the stored nodes at those distances; distinct = distinct hash of the operation/result log",
     components_real: REAL_TABLE,
     components_stub: STUB_CLOCK,
+    enumerated: None,
     assumptions: &["XOR distance and log2 distance of the oracle are computed from raw id bytes, independently of kbucket::Key", "nodes_by_distances is called with a cap >= 1 and distinct distances"],
 };
 
@@ -52,6 +54,7 @@ pub static C16: CheckSpec = CheckSpec {
     rule: "one run = one generated history (20..320 operations: insert_or_update, record updates that may move a node to another /24, status updates, removals, Entry API, iteration, clock advances around the 60 s pending timeout) on the routing table of a Discv5 built with ip_limit (real IpTableFilter/IpBucketFilter), over 30..150 real signed records drawn from 1-3 /24 subnets plus address-less and IPv6-only fillers, with an optional fill burst so that full buckets with pending candidates occur; per-bucket and per-table /24 counts are checked after every operation; distinct = distinct hash of the operation/result log",
     components_real: &["kbucket::KBucketsTable<NodeId, Enr>", "kbucket::filter::{IpTableFilter, IpBucketFilter}", "Discv5::new (filter wiring)", "enr records with real signatures"],
     components_stub: STUB_CLOCK,
+    enumerated: None,
     assumptions: &["identities come from a fixed pool of 192 deterministic secp256k1 keys, so populated buckets are the high ones (255, 254, ...)"],
 };
 
@@ -70,9 +73,10 @@ pub static C09: CheckSpec = CheckSpec {
     runs_thorough: 60_000_000,
     cap_quick_s: 60,
     cap_thorough_s: 900,
-    rule: "one run = one generated event order (poll / success with 0..6 returned peers that are new, duplicate, closer, farther or the target itself / failure / silence past the peer timeout / late success / answers for never-asked or unknown peers) against a real FindNodeQuery or PredicateQuery (direct) or a real QueryPool with 1-3 concurrent queries and a query timeout (pool), parallelism 1..5, k 0..20, followed by a fault-free drain phase with a step bound (liveness); non-trivial = at least one fault-like event fired (failure, late success, silence, answer for a non-outstanding peer); distinct = distinct hash of the event log",
+    rule: "one run = one generated event order (poll / success with 0..6 returned peers that are new, duplicate, closer, farther or the target itself / failure / silence past the peer timeout / late success / answers for never-asked or unknown peers) against a real FindNodeQuery or PredicateQuery (direct) or a real QueryPool with 1-3 concurrent queries and a query timeout (pool), parallelism 1..5, k 0..20, followed by a fault-free drain phase with a step bound (liveness); non-trivial = at least one fault-like event fired (failure, late success, silence, answer for a non-outstanding peer); distinct = distinct hash of the event log; service-lookup: a real service with a scripted handler whose FINDNODEs are answered honestly, maliciously or with failures; Scenario 'full-stack': 2-5 complete honest Discv5 nodes (API, service, handler, tables) on the virtual network with drop/duplicate/delay/partition/restart faults and API calls (find_node incl. targets adjacent to a peer's id, send_ping, talk_req, find_node_designated_peer); every API future must return within a bound after the faults stop",
     components_real: REAL_QUERY,
     components_stub: &["OS monotonic clock (interposed)", "the service and its peers (the harness plays the answers)"],
+    enumerated: None,
     assumptions: &["in flight = asked, not yet answered/failed and younger than the peer timeout", "the parallelism bound is `parallelism` until `parallelism` successes have been delivered (the query cannot have stalled before), max(parallelism, k) afterwards"],
 };
 
@@ -91,6 +95,7 @@ pub static C10: CheckSpec = CheckSpec {
     rule: "same runs as C09 (different run indices are not shared: C10 draws its own); the final result of every query (into_result after Finished, or at pool Timeout) is checked: at most k distinct ids, strictly increasing XOR distance to the target (raw bytes), each asked and answered with a success, predicate results reported with a matching record or flagged initially, and if fewer than k without timeout every certainly-learned candidate was asked",
     components_real: REAL_QUERY,
     components_stub: &["OS monotonic clock (interposed)", "the service and its peers (the harness plays the answers)"],
+    enumerated: None,
     assumptions: &["'certainly learned' = the first k initial candidates plus peers returned by the first report of an asked peer (an under-approximation of what the query incorporated, so the completeness clause cannot false-alarm)"],
 };
 
@@ -108,6 +113,7 @@ pub static C18: CheckSpec = CheckSpec {
     rule: "one run = one generated arrival schedule (20..420 steps: datagrams from 1-6 IPs x 1-8 node ids, bursts, lulls of 0..31 s, prune ticks, ban/permit list edits) executed twice against a fresh real Filter (with and without the prune ticks: metamorphic pair), quotas burst in {1,2,4,5,8,10} per {0.1,0.5,1,5} s for total / per-IP / per-node; 'conforming' runs generate only traffic that stays within every quota (initial burst, then paced at >= period/burst per key and in total) and demand that nothing is refused; non-trivial = a prune tick occurred or at least one datagram was refused; distinct = distinct hash of the arrival/decision log",
     components_real: &["socket::filter::Filter (initial_pass, final_pass, prune_limiter)", "socket::filter::rate_limiter::{RateLimiter, Limiter} (GCRA)", "socket::filter::cache::ReceivedPacketCache", "PERMIT_BAN_LIST global"],
     components_stub: &["OS monotonic clock (interposed)", "UDP receive loop and packet decoding (the filter stages are called directly in the order RecvHandler::handle_inbound calls them; the exemption bypass of handle_inbound is exercised under C13)"],
+    enumerated: None,
     assumptions: &["quota periods are chosen so that period_ns is divisible by the burst: the limiter's integer replenish interval is then exact and 'burst + rate x window' is the exact bound", "ban expiry enforcement (unban) belongs to the Handler task and is not part of this world; bans are only required to last at least ban_duration"],
 };
 
@@ -127,7 +133,7 @@ fn f_c19(ctx: &mut Ctx) {
     worlds::fworld::run(ctx, worlds::fworld::Which { c09: false, c11: false, c13: false, c19: true });
 }
 fn c04_run(ctx: &mut Ctx) {
-    worlds::h_traffic::run(ctx, worlds::h_traffic::Opts { c04: true, c13: false, c19: false, malicious: false });
+    worlds::h_traffic::run(ctx, worlds::h_traffic::Opts { c04: true, c13: false, c19: false, malicious: true });
 }
 fn c19_run(ctx: &mut Ctx) {
     worlds::h_traffic::run(ctx, worlds::h_traffic::Opts { c04: false, c13: false, c19: true, malicious: true });
@@ -144,9 +150,10 @@ pub static C04: CheckSpec = CheckSpec {
     runs_thorough: 150_000,
     cap_quick_s: 75,
     cap_thorough_s: 1200,
-    rule: "one run = 2-4 real handlers on the virtual network, 1-12 concurrent requests (PING / FINDNODE with 1-3 response packets / TALK, contacts with and without record) submitted at chosen times, under a per-run fault profile (drop, duplicate, delay/reorder, partition, slow WHOAREYOU answers and responses, silent application, peer restart, injected undecryptable packet = session loss, clock jump); at a chosen instant all faults stop and the run continues for the liveness bound; non-trivial = at least one fault fired; distinct = distinct hash of the abstract event log (datagram kinds, faults, handler outputs, virtual times)",
+    rule: "one run = 2-4 real handlers on the virtual network, 1-12 concurrent requests (PING / FINDNODE with 1-3 response packets / TALK, contacts with and without record) submitted at chosen times, under a per-run fault profile (drop, duplicate, delay/reorder, partition, slow WHOAREYOU answers and responses, silent application, peer restart, injected undecryptable packet = session loss, clock jump); at a chosen instant all faults stop and the run continues for the liveness bound; non-trivial = at least one fault fired; distinct = distinct hash of the abstract event log (datagram kinds, faults, handler outputs, virtual times); malicious-peer actions (second WHOAREYOU, forged WHOAREYOU, random packets from unknown parties) are injected as well",
     components_real: REAL_HANDLER,
     components_stub: STUB_HANDLER,
+    enumerated: None,
     assumptions: &["liveness bound B = 4*(retries+1)*request_timeout + 2 s + 3 s (max application delay), calibrated on the fault-free configuration (1 run in 6)", "a request submitted at a handler that is then restarted is lost with it (no durable state) and is exempt from the liveness clause"],
 };
 
@@ -164,6 +171,7 @@ pub static C15: CheckSpec = CheckSpec {
     rule: "session-ttl: a victim with session_timeout in {2,5,30,120} s and 1-3 real peers; 4-17 sequential exchanges in either direction separated by idle gaps of 50 ms, timeout/2, timeout-0.7 s, timeout+1 ms, timeout+0.7 s, 2*timeout; every datagram the victim encrypts and every message it accepts is attributed to one of its sessions (key log) and that session's idle time must not exceed the timeout. session-capacity: capacity 1-5, 2-7 real peers, sequential exchanges in tape-chosen order and direction, then the victim pings every peer most-recently-used first: ranks below the capacity must be answered on the existing session, ranks at or above it must start with a random packet; non-trivial = an idle gap longer than the timeout occurred / more peers than capacity; distinct = distinct event-log hash",
     components_real: REAL_HANDLER,
     components_stub: STUB_HANDLER,
+    enumerated: None,
     assumptions: &["'use' of a session = the victim encrypts a datagram under its keys or accepts (delivers) a message decrypted under them; creation counts as a use", "capacity runs keep exchanges sequential so that recency is unambiguous whatever else the implementation counts as a touch"],
 };
 
@@ -175,9 +183,10 @@ pub static C19: CheckSpec = CheckSpec {
     runs_thorough: 150_000,
     cap_quick_s: 75,
     cap_thorough_s: 1200,
-    rule: "same world and fault profiles as C04 plus forged WHOAREYOUs that force re-keying; every emitted Message/Handshake datagram is attributed to the session key (H6 key log) that decrypts it and (emitter, key, 12-byte nonce) must identify one byte string; all id-nonces of a node's WHOAREYOUs must differ; non-trivial = at least one fault fired; distinct = distinct event-log hash",
+    rule: "same world and fault profiles as C04 plus forged WHOAREYOUs that force re-keying; every emitted Message/Handshake datagram is attributed to the session key (H6 key log) that decrypts it and (emitter, key, 12-byte nonce) must identify one byte string; all id-nonces of a node's WHOAREYOUs must differ; non-trivial = at least one fault fired; distinct = distinct event-log hash; Scenario 'full-stack': 2-5 complete honest Discv5 nodes (API, service, handler, tables) on the virtual network with drop/duplicate/delay/partition/restart faults and API calls (find_node incl. targets adjacent to a peer's id, send_ping, talk_req, find_node_designated_peer); the same nonce-uniqueness oracle over all nodes' traffic",
     components_real: REAL_HANDLER,
     components_stub: STUB_HANDLER,
+    enumerated: None,
     assumptions: &["the session-key log (hook H6) reports every session object the handler creates"],
 };
 
@@ -192,9 +201,10 @@ pub static C11: CheckSpec = CheckSpec {
     runs_thorough: 1_500_000,
     cap_quick_s: 75,
     cap_thorough_s: 1200,
-    rule: "one run = a real service with 1-10 table peers out of a universe of 10-40 real signed records, one lookup whose target is random, a peer's id, a peer's id with one of the three lowest bits flipped (request lists containing 0) or the local id; each FINDNODE the lookup emits is answered by an honest responder (all records of its neighbourhood at the requested distances, own record iff 0 requested, 1-4 packets, consistent total, sometimes a late extra packet) or a malicious one (off-distance records, the requester's own record, duplicates, totals 0..2^64-1 with up to 20 packets, more packets than announced, a single foreign record) or by RequestFailed; accepted records are observed as Discovered events packet by packet, the ban list is read after every response; non-trivial = the lookup asked at least one peer; distinct = distinct event-log hash",
+    rule: "one run = a real service with 1-10 table peers out of a universe of 10-40 real signed records, one lookup whose target is random, a peer's id, a peer's id with one of the three lowest bits flipped (request lists containing 0) or the local id; each FINDNODE the lookup emits is answered by an honest responder (all records of its neighbourhood at the requested distances, own record iff 0 requested, 1-4 packets, consistent total, sometimes a late extra packet) or a malicious one (off-distance records, the requester's own record, duplicates, totals 0..2^64-1 with up to 20 packets, more packets than announced, a single foreign record) or by RequestFailed; accepted records are observed as Discovered events packet by packet, the ban list is read after every response; non-trivial = the lookup asked at least one peer; distinct = distinct event-log hash; Scenario 'full-stack': 2-5 complete honest Discv5 nodes (API, service, handler, tables) on the virtual network with drop/duplicate/delay/partition/restart faults and API calls (find_node incl. targets adjacent to a peer's id, send_ping, talk_req, find_node_designated_peer); the ban list must stay empty (all peers are honest)",
     components_real: REAL_SERVICE,
     components_stub: STUB_SERVICE,
+    enumerated: None,
     assumptions: &["'accepted' = reported as Event::Discovered (the records handed to the query and the routing-table update); the local node's own record is never reported and is excluded", "the scripted handler delivers at most `total` (of the first packet) responses per request, like the real handler", "completeness is only demanded of honest, complete answers of at most 16 records"],
 };
 
@@ -212,6 +222,7 @@ pub static C12: CheckSpec = CheckSpec {
     rule: "table-policy (real service, scripted handler): 10-70 steps over a universe of 6-26 real signed records: Established (incoming/outgoing, record shapes v4 / none / v6-only / both / v4-mapped v6 / v4+tcp, sequence number equal or higher than known), add_enr (lower/equal/higher seq), remove_node, disconnect_node, lookups whose FINDNODEs are answered with records of any shape and seq lower/equal/higher (discovered records), PONGs advertising higher seqs, request failures, idle time; IP mode v4 / v6 / dual stack; table filter none / no-tcp / odd-seq; the routing table is read after every step. identity-adversary (real handlers, W-H): the C01 scenario, which also lets the adversary handshake under its own id with a record advertising its real source, no address, or somebody else's address and demands that an incoming Established carries a record whose UDP address equals the observed source; non-trivial = the table was non-empty at the end / an attack datagram was injected; distinct = distinct event-log hash",
     components_real: REAL_SERVICE,
     components_stub: STUB_SERVICE,
+    enumerated: None,
     assumptions: &["the scripted handler reports, like the real one, only records whose address is absent or equals the source, and never a record older than (or a different one with the same seq as) the one the service knows", "'every entry was the subject of an Established or add_enr' is checked over the whole run (not since its last absence)"],
 };
 
@@ -226,6 +237,7 @@ pub static C14: CheckSpec = CheckSpec {
     rule: "one run = a real service whose table holds 2-61 real signed records (padded to the 300-byte limit in two of three runs), max_nodes_response in {1,4,16,32,48}; 3-14 requests: FINDNODE with 0-6 distances (0, 256..249, random; duplicates, unsorted), request ids of 0-8 bytes, requesters that are table entries or strangers, PINGs from ports incl. 0; the HandlerIn::Response values are compared with the table read back through the public API and every packet is encrypted (AES-GCM) and encoded with the real codec to measure its wire size; every run is non-trivial; distinct = distinct event-log hash",
     components_real: REAL_SERVICE,
     components_stub: STUB_SERVICE,
+    enumerated: None,
     assumptions: &["log2 distances of the oracle are computed from raw id bytes", "when more entries are eligible than max_nodes_response any subset of that size is accepted (one fewer when the requester itself was among the selected ones)"],
 };
 
@@ -240,6 +252,7 @@ pub static C17: CheckSpec = CheckSpec {
     rule: "one run = a real service in IPv4 mode with enr_peer_update_min 2..6, vote_duration 8/30/120 s, ping interval 1 s, 2-12 voters established as outgoing or incoming peers; 10-70 rounds in which a held PING is answered with a PONG carrying that voter's current opinion among three candidate addresses (fewer liars than the minimum vote a third address), voters change opinion, time passes (up to a whole vote duration); the local record is read after every PONG: a change to an address must be backed, at that moment, by at least the minimum number of unexpired latest votes of eligible (outgoing) peers and every rival must stay below round(0.7 x that count); seq increases, the record verifies, one SocketUpdated event per change; non-trivial = at least one eligible vote was cast; distinct = distinct event-log hash",
     components_real: REAL_SERVICE,
     components_stub: STUB_SERVICE,
+    enumerated: None,
     assumptions: &["IPv4 mode, where only connected outgoing table peers are eligible voters; all PINGs are eventually answered so voters stay connected", "one run in four enables the NAT check (auto_nat_listen_duration), whose removal of the address is not a PONG-caused change and is only checked for seq/signature"],
 };
 
@@ -254,20 +267,22 @@ pub static C20: CheckSpec = CheckSpec {
     rule: "one run = 1-150 TALKREQs from 5 peers delivered to a real service; the application (harness) takes the TalkRequest objects from the event stream and, in tape order, responds, drops or holds them; stream modes: drained, never drained (fills up), receiver dropped; in one run of three the service is shut down at a chosen point and the (scripted) handler goes away with it, after which held requests are responded to or dropped; while running every TALKREQ must get exactly one TALKRESP with its id to its address carrying the application's payload or an empty one; after shutdown respond() must return an error and nothing may panic; every run is non-trivial; distinct = distinct event-log hash",
     components_real: REAL_SERVICE,
     components_stub: STUB_SERVICE,
+    enumerated: None,
     assumptions: &["after shutdown the scripted handler closes its receiving end, as the real handler task does when it exits"],
 };
 
 pub static C13: CheckSpec = CheckSpec {
     id: "C13",
     level: "exploration",
-    scenarios: &[Scenario { name: "handler-traffic", weight: 4, run: c13_run }, Scenario { name: "full-stack", weight: 1, run: f_c13 }],
+    scenarios: &[Scenario { name: "handler-traffic", weight: 6, run: c13_run }, Scenario { name: "full-stack", weight: 1, run: f_c13 }, Scenario { name: "banned-peer-bypass", weight: 1, run: worlds::h_traffic::run_bypass }],
     runs_quick: 40_000,
     runs_thorough: 150_000,
     cap_quick_s: 75,
     cap_thorough_s: 1200,
-    rule: "same world and fault profiles as C04 (packet filter on in half of the handlers) plus malicious peers (second WHOAREYOU, forged WHOAREYOU, random packets from unknown parties whose challenge is never answered); the shared exemption map is compared with the harness's ledger after every handler output (upper bound) and must be empty at quiescence; non-trivial = at least one fault fired; distinct = distinct event-log hash",
+    rule: "same world and fault profiles as C04 (packet filter on in half of the handlers) plus malicious peers (second WHOAREYOU, forged WHOAREYOU, random packets from unknown parties whose challenge is never answered); the shared exemption map is compared with the harness's ledger after every handler output (upper bound) and must be empty at quiescence; non-trivial = at least one fault fired; distinct = distinct event-log hash; banned-peer-bypass: victim with the packet filter on, the peer's IP banned: the victim's own requests to it must be answered (exemption) and the peer's unsolicited requests must leave no trace; Scenario 'full-stack': 2-5 complete honest Discv5 nodes (API, service, handler, tables) on the virtual network with drop/duplicate/delay/partition/restart faults and API calls (find_node incl. targets adjacent to a peer's id, send_ping, talk_req, find_node_designated_peer); all exemption maps must be empty once every API call returned",
     components_real: REAL_HANDLER,
     components_stub: STUB_HANDLER,
+    enumerated: None,
     assumptions: &["quiescence = horizon reached with no harness event pending, all requests terminal and every challenge older than request_timeout"],
 };
 
@@ -282,6 +297,7 @@ pub static C01: CheckSpec = CheckSpec {
     rule: "one run = a victim handler, 1-2 genuine peers (one possibly not running) and an adversary without any honest secret key; the victim's application knows the genuine record, nothing, or a stale record; 1-3 attacks = random packet claiming a genuine id from the attacker's or the genuine (spoofed) address, then a handshake answering the victim's WHOAREYOU with record in {own (seq below/equal/above), genuine (replayed), none, own with the genuine address}, signer in {attacker key, garbage, replayed genuine signature}, valid or invalid ephemeral key; interleaved with genuine requests in both directions; every identity effect (Established, Request, Response, UnverifiableEnr, recipient-side session keys) must be justified by a delivered handshake whose id-signature verifies under the claimed id's public key over one of the node's own WHOAREYOUs to that address, or by the node's own dial; non-trivial = an attack datagram was injected; distinct = distinct event-log hash",
     components_real: REAL_HANDLER,
     components_stub: STUB_HANDLER,
+    enumerated: None,
     assumptions: &["the oracle trusts the crate's ECDSA id-signature verification (reference vectors in the test suite)", "effects of sessions the node itself dialled are justified by its own request to that contact (the remote proves itself by decrypting under the static-key ECDH)"],
 };
 
@@ -299,6 +315,7 @@ pub static C02: CheckSpec = CheckSpec {
     rule: "enumerated half: 6 base exchanges (fresh recipient session, initiator with multi-packet NODES, record-less contact awaiting the record, re-key after session loss, simultaneous dial with a third node, NODES in 2 packets then reverse PING) x datagram index 0..9 x mutation index j (every single-bit flip, every truncation length, a 1-byte insertion at every offset, 1..8 junk bytes appended to the auth-data with the masked size field patched to cover them; j beyond that is an empty case that ends at once): 198480 cases, all executed by the thorough tier, a fixed-stride sample by the quick tier; exactly one genuine datagram is replaced by its mutation per run. explored half: tape-chosen base plus extra requests, 5-40 % of the datagrams mutated by bit flip / truncation / insertion / auth-data growth with patched size field / header-body splice with an earlier datagram / misdelivery / re-masking for another node / spoofed source, with jitter and duplicates, sometimes delivering the genuine datagram as well; non-trivial = at least one mutated datagram was delivered; distinct = distinct event-log hash",
     components_real: REAL_HANDLER,
     components_stub: STUB_HANDLER,
+    enumerated: Some(("tamper-enumerated", worlds::h_tamper::ENUM_SPACE)),
     assumptions: &["a delivered message is matched to its carrier by decrypting the receiver's genuine inbound datagrams with the sender's logged session keys (hook H6) and comparing the plaintext with the re-encoded delivered message", "duplicated or replayed genuine datagrams may be delivered again (the handler keeps no replay window and the property allows it)"],
 };
 
@@ -316,6 +333,7 @@ pub static C03: CheckSpec = CheckSpec {
     rule: "enumerated half: for each of 7 base exchanges (X dials V with/without V knowing X's record, V dials X with/without record, re-key after session loss, simultaneous dial plus a third node, X dials V with a record that advertises another address than it sends from) every recorded handshake/WHOAREYOU datagram (index 0..7) x every later point (after the 1st..12th emitted datagram, after all challenges expired, while a later exchange runs) x {original source, other address, towards another node} is re-injected, one per run: 2352 cases, all executed in both tiers (runs whose datagram index does not exist inject nothing and are trivial); explored half: tape-chosen base, 1-4 replays, jitter and duplicates, extra requests; non-trivial = a replay was injected; distinct = distinct event-log hash",
     components_real: REAL_HANDLER,
     components_stub: STUB_HANDLER,
+    enumerated: Some(("replay-enumerated", worlds::h_replay::ENUM_SPACE)),
     assumptions: &["a challenge's expiry is request_timeout after the WHOAREYOU or after the last delivered handshake that may have re-armed it (invalid-signature re-insert)", "the oracle trusts the crate's id-signature verification to attribute an accepted handshake to the challenge it answers"],
 };
 
